@@ -8,6 +8,7 @@
   C14.4  the DP cannot return -inf and never takes a segment twice: finite re-initialisation before maximising,
          predecessor recorded only on strict improvement, predecessors range over a proper prefix, own score added
          once, back-tracking until None; empty segments are passed through (complementary predicates)
+  C14.6  the pre-order key of the DP increases with all four coordinates of a segment and does not depend on the strand
   C14.5  the join score is a function of the two segments and the scorer's two configuration values only: getScore (and the
          methods of the scorer it calls) write no attribute or container of the scorer and never use object identity
          (id()): a remembered score of an earlier pair must not stand in for a later one
@@ -24,6 +25,7 @@ from ..norm import Normalizer
 from ..rules.common import explore, where, short, self_attr
 from ..rules.order import key_path, sort_spec
 from ..rules import sign as S
+from ..rules import effects as E
 
 
 def pos(seg, end, side):
@@ -56,7 +58,26 @@ def run(ck):
     dp(ck)
 
 
+NEG_INF_FORMS = None
+
+
+def _neg_inf_forms():
+    global NEG_INF_FORMS
+    if NEG_INF_FORMS is None:
+        inf = T.mk_attr(("ext", "math"), "inf")
+        NEG_INF_FORMS = (T.p_neg(inf), T.p_neg(("call", "float", (C("inf"),), ())), ("call", "float", (C("-inf"),), ()),
+                         T.p_neg(T.mk_attr(("ext", "numpy"), "inf")), T.p_neg(("call", "float", (C("infinity"),), ())),
+                         ("call", "float", (C("-infinity"),), ()))
+    return NEG_INF_FORMS
+
+
 def join_score(ck):
+    """Judged per return path of getScore, whatever functions the computation is spread over (methods of the scorer that it
+    calls are explored in place):
+      C14.2  a path returns -inf  <=>  it has asserted the excessive-overlap condition; every finite path has refuted it
+             (besides tests of the scorer's own configuration, nothing else may decide)
+      C14.3  the distances inside that condition (and handed to the formula) are current start - previous end on both axes
+      C14.1  every returned expression is non-positive over the sign domain; a contiguous join scores exactly 0"""
     ctx = ck.ctx
     p = ctx.p
     fn = p.find_method("SequentialityScorer", "getScore")
@@ -67,85 +88,177 @@ def join_score(ck):
     pure_scorer(ck, fn)
     ref_dist, q_dist, fwd, rev, ref_len, q_len = expected_distances(prev, cur)
     own = lambda callee: callee.cls is fn.cls and callee is not fn     # helper methods the formula may have been moved to
-    paths = [pa for pa in explore(ck, fn, follow=own) if pa.outcome == "return"]
+    paths = [pa for pa in explore(ck, fn, follow=own, split_returns=True) if pa.outcome == "return"]
     ck.floor("C14 return paths of getScore", len(paths), 2)
-    inf = T.mk_attr(("ext", "math"), "inf")
-    neg_inf = T.p_neg(inf)
     want_overlap = T.mk_lt(T.mk_call("min", [T.p_add(ref_len, T.p_mul(C(2), ref_dist)),
                                               T.p_add(q_len, T.p_mul(C(2), q_dist))]), C(0))
-    mult = None
+    want_pos, want_pol = T.positive(want_overlap)
+
+    def mentions_segments(c):
+        return T.contains(c, V(prev)) or T.contains(c, V(cur))
     n_inf = n_fin = 0
-    for pa in paths:
+    mult = None
+    for k, pa in enumerate(paths):
         v = pa.value
         w = where(fn, pa.node)
-        conds = [c if tv else T.mk_not(c) for c, tv, _ in pa.state.assumptions]
-        if v in (neg_inf, T.p_neg(("call", "float", (C("inf"),), ())), ("call", "float", (C("-inf"),), ()),
-                 T.p_neg(T.mk_attr(("ext", "numpy"), "inf")), T.p_neg(("call", "float", (C("infinity"),), ())),
-                 ("call", "float", (C("-infinity"),), ())):
+        conds = [(c, tv) for c, tv, _ in pa.state.assumptions]
+        overlap = None               # truth of the excessive-overlap condition on this path, None when never tested
+        foreign = []                 # conditions on the segments other than the overlap condition
+        for c, tv in conds:
+            pc, pol = T.positive(c)
+            if pc == want_pos:
+                overlap = (tv == pol) == want_pol if want_pol else (tv != pol)
+                overlap = tv if (pol == want_pol) else (not tv)
+            elif mentions_segments(c):
+                foreign.append(c if tv else T.mk_not(c))
+        if v in _neg_inf_forms():
             n_inf += 1
-            ok = conds == [want_overlap]
-            if ok:
+            if overlap is True and not foreign:
                 ck.ok("C14.2", short(fn) + ":inadmissible", w,
                       "-inf iff min(refLen + 2*refDist, qLen + 2*qDist) < 0 (overlap strictly more than half the shorter extent)")
             else:
-                known = all(x[0] in ("lt", "le", "or", "and", "poly", "attr", "v", "call", "select", "c", "not") for c in conds
-                            for x in T.subterms(c))
+                shown = [c if tv else T.mk_not(c) for c, tv in conds]
+                known = all(x[0] in ("lt", "le", "or", "and", "poly", "attr", "v", "call", "select", "c", "not", "eq", "ne")
+                            for c in shown for x in T.subterms(c))
                 if not known:
                     raise AnalysisError(f"{w}: overlap test not in the recognised vocabulary")
                 ck.violation("C14.2", short(fn) + ":inadmissible", w, "the inadmissibility test differs from "
-                             "min(refLen + 2*refDist, qLen + 2*qDist) < 0", found="; ".join(T.show(c)[:400] for c in conds),
+                             "min(refLen + 2*refDist, qLen + 2*qDist) < 0", found="; ".join(T.show(c)[:400] for c in shown) or "unconditional",
                              required=T.show(want_overlap)[:400])
             continue
         n_fin += 1
-        # finite score: - multiplier * calcScore(refDist, queryDist, variant)
+        if overlap is not False or foreign:
+            shown = [c if tv else T.mk_not(c) for c, tv in conds]
+            if foreign and overlap is False:
+                ck.violation("C14.2", short(fn) + f":finite#{k}:extra-condition", w,
+                             "a finite join score depends on a further condition on the two segments", found="; ".join(T.show(c)[:200] for c in foreign))
+            else:
+                ck.violation("C14.2", short(fn) + f":finite#{k}:overlap-not-tested", w,
+                             "a finite join score is returned on a path that never refuted the excessive-overlap condition: two "
+                             "segments overlapping by more than half of the shorter one get a finite score (and can be chained)",
+                             found=f"return {T.show(v)[:120]} when " + ("; ".join(T.show(c)[:160] for c in shown) or "unconditionally"),
+                             required="not (" + T.show(want_overlap)[:300] + ") on every finite path")
+            continue
+        # ---- the formula on this path
         items = T.to_poly(v)
-        if len(items) != 1:
-            raise AnalysisError(f"{w}: join score is not a single product: {T.show(v)[:200]}")
-        (mono, coeff), = items.items()
-        apps = [f for f in mono if f[0] == "app"]
-        others = [f for f in mono if f[0] != "app"]
-        if len(apps) != 1 or len(others) != 1:
-            raise AnalysisError(f"{w}: join score is expected to be -(multiplier * f(refDist, queryDist)): {T.show(v)[:200]}")
-        mult = others[0]
-        inner = p.get_function(apps[0][1])
-        a = dict(apps[0][3])
-        names = [pp.name for pp in inner.call_params()]
-        rd, qd = a.get(names[0]), a.get(names[1])
-        ck.judge(rd == ref_dist, "C14.3", short(fn) + ":reference-distance", w,
-                 "reference distance = current start - previous end", found=T.show(rd)[:160], required=T.show(ref_dist))
-        strand_dependent = qd is not None and any(x[0] == "attr" and x[2] in ("reverse", "reverseStrand") for x in T.subterms(qd))
-        ck.judge(qd == q_dist, "C14.3", short(fn) + ":query-distance", w,
-                 "query distance = current start - previous end on both strands: reverse-strand query coordinates are mirrored "
-                 "and ascend along a chain, a negated distance on '-' turns every gap into an overlap"
-                 + (" (the distance depends on the strand)" if strand_dependent else ""),
-                 found=T.show(qd)[:240], required=T.show(q_dist)[:240])
-        ck.assume("segmentJoinMultiplier >= 0 (O6: args.py does not validate it; a negative multiplier is outside any "
-                  "sensible configuration)")
-        env = {mult: S.NONNEG}
-        # sign of every returned expression, evaluated on the un-expanded syntax (sums of squares stay visible)
-        mult_text = "self." + mult[2] if mult[0] == "attr" else T.show(mult)
-        ev = S.SignEval(ctx, fn, {mult_text: S.NONNEG})
-        total = ev.returns()
-        for line, text, sg in ev.trace:
-            ck.judge(sg in (S.NONPOS, S.NEG, S.ZERO), "C14.1", f"{short(fn)}:sign@return#{[t[0] for t in ev.trace].index(line)}",
-                     f"{fn.module.relpath}:{line}", "join score is non-positive: -(multiplier >= 0) * (non-negative / positive), or -inf",
-                     found=f"sign {sg} for `{text}`", required="nonpos")
-        iev = S.SignEval(ctx, inner, {})
-        iev.returns()
-        ck.floor("C14.1 variants of the join formula", len(iev.trace), 2)
-        for k, (line, text, sg) in enumerate(iev.trace):
-            ck.judge(sg in (S.NONNEG, S.POS, S.ZERO), "C14.1", f"{short(inner)}:variant#{k}", f"{inner.module.relpath}:{line}",
-                     "the distance penalty is non-negative: (sum of squares) / (max(..., 1) > 0)",
-                     found=f"sign {sg} for `{text}`", required="nonneg")
-        # exactly 0 at refDist = queryDist = 0
-        zero_env = {names[0]: C(0), names[1]: C(0)}
-        for k, ip in enumerate([x for x in explore(ck, inner, env=zero_env) if x.outcome == "return"]):
-            variant = "; ".join(("" if tv else "not ") + T.show(c) for c, tv, _ in ip.state.assumptions) or f"variant {k}"
-            ck.judge(ip.value == C(0), "C14.1", f"{short(fn)}:zero[{variant}]", where(inner, ip.node),
-                     "a perfectly contiguous join (both distances 0) scores exactly 0", found=T.show(ip.value), required="0")
+        apps = []
+        if len(items) == 1:
+            (mono, coeff), = items.items()
+            apps = [f for f in mono if f[0] == "app"]
+            others = [f for f in mono if f[0] != "app"]
+            if len(apps) == 1 and len(others) == 1:
+                mult = others[0]
+        if len(apps) == 1 and mult is not None:
+            inner = p.get_function(apps[0][1])
+            a = dict(apps[0][3])
+            names = [pp.name for pp in inner.call_params()]
+            rd, qd = a.get(names[0]), a.get(names[1])
+            ck.judge(rd == ref_dist, "C14.3", short(fn) + ":reference-distance", w,
+                     "reference distance = current start - previous end", found=T.show(rd)[:160], required=T.show(ref_dist))
+            strand_dependent = qd is not None and any(x[0] == "attr" and x[2] in ("reverse", "reverseStrand") for x in T.subterms(qd))
+            ck.judge(qd == q_dist, "C14.3", short(fn) + ":query-distance", w,
+                     "query distance = current start - previous end on both strands: reverse-strand query coordinates are mirrored "
+                     "and ascend along a chain, a negated distance on '-' turns every gap into an overlap"
+                     + (" (the distance depends on the strand)" if strand_dependent else ""),
+                     found=T.show(qd)[:240], required=T.show(q_dist)[:240])
+            iev = S.SignEval(ctx, inner, {})
+            iev.returns()
+            for j, (line, text, sg) in enumerate(iev.trace):
+                ck.judge(sg in (S.NONNEG, S.POS, S.ZERO), "C14.1", f"{short(inner)}:variant#{j}", f"{inner.module.relpath}:{line}",
+                         "the distance penalty is non-negative: (sum of squares) / (max(..., 1) > 0)",
+                         found=f"sign {sg} for `{text}`", required="nonneg")
+            zero_env = {names[0]: C(0), names[1]: C(0)}
+            for j, ip in enumerate([x for x in explore(ck, inner, env=zero_env) if x.outcome == "return"]):
+                variant = "; ".join(("" if tv else "not ") + T.show(c) for c, tv, _ in ip.state.assumptions) or f"variant {j}"
+                ck.judge(ip.value == C(0), "C14.1", f"{short(fn)}:zero[{variant}]", where(inner, ip.node),
+                         "a perfectly contiguous join (both distances 0) scores exactly 0", found=T.show(ip.value), required="0")
+        else:
+            # the formula is written out on the path: the distances it uses must be the two expected polynomials, and it
+            # must vanish when both are 0
+            zero = {pos(cur, "start", "reference"): pos(prev, "end", "reference"), pos(cur, "start", "query"): pos(prev, "end", "query")}
+            vz = T.substitute(v, zero)
+            ck.judge(_is_zero(vz), "C14.1", f"{short(fn)}:zero[path {k}]", w,
+                     "a perfectly contiguous join (current start == previous end on both axes) scores exactly 0",
+                     found=T.show(vz)[:200], required="0")
+            uses = [x for x in T.subterms(v) if x[0] == "attr" and x[2] == "position"]
+            allowed = {pos(cur, "start", "reference"), pos(prev, "end", "reference"), pos(cur, "start", "query"), pos(prev, "end", "query")}
+            stray = [x for x in uses if x not in allowed]
+            ck.judge(not stray, "C14.3", f"{short(fn)}:distances[path {k}]", w,
+                     "the finite score is a function of the two gaps (current start - previous end) only",
+                     found="also reads " + ", ".join(sorted({T.show(x) for x in stray}))[:200] if stray else T.show(v)[:120])
     ck.floor("C14.2 -inf return paths", n_inf, 1)
     ck.floor("C14.1 finite return paths", n_fin, 1)
+    # ---- C14.1 sign of everything getScore can return (raw syntax: sums of squares stay visible), callees included
+    ck.assume("segmentJoinMultiplier >= 0 (O6: args.py does not validate it; a negative multiplier is outside any "
+              "sensible configuration)")
+    init = p.lookup_method(fn.cls, "__init__", None)
+    mult_attr = None
+    if init is not None:
+        for prm_name, attr in E.init_param_to_attr(ctx, fn.cls).items():
+            if "ultiplier" in prm_name:
+                mult_attr = attr
+    if mult_attr is None:
+        mult_attr = mult[2] if mult is not None and mult[0] == "attr" else "segmentJoinMultiplier"
+    ev = S.SignEval(ctx, fn, {"self." + mult_attr: S.NONNEG}, depth=3)
+    ev.returns()
+    seen_lines = []
+    for line, text, sg in ev.trace:
+        seen_lines.append(line)
+        ck.judge(sg in (S.NONPOS, S.NEG, S.ZERO), "C14.1", f"{short(fn)}:sign@return#{seen_lines.index(line)}",
+                 f"{fn.module.relpath}:{line}", "join score is non-positive: -(multiplier >= 0) * (non-negative / positive), or -inf",
+                 found=f"sign {sg} for `{text}`", required="nonpos")
+    ck.floor("C14.1 returned expressions evaluated over the sign domain", len(ev.trace), 2)
     ck.observe("O6 segmentJoinMultiplier is not validated to be non-negative (args.py)")
+
+
+def _is_zero(t) -> bool:
+    """0, -0.0, 0 * x, 0 / x after normalisation"""
+    if T.is_num_const(t):
+        return t[1] == 0
+    if t[0] == "div":
+        return _is_zero(t[1])
+    if t[0] == "poly":
+        return all(any(_is_zero(f) for f in mono) for mono, c in t[1]) if t[1] else True
+    return False
+
+
+def _preorder_key(ck, fn, spec, w):
+    """C14.6: the DP only looks back, so the pre-order must put every admissible predecessor first: the key grows with each
+    of the four coordinates of a segment (both axes ascend along a chain on both strands) and does not look at the strand"""
+    ck.clause("C14.6", "segments are pre-ordered by a key that increases with all four coordinates, on both strands")
+    kw = dict(spec[3])
+    key = kw.get("key")
+    desc = kw.get("reverse", C(False))
+    body = None
+    lv = None
+    if key is not None and key[0] == "lam" and key[1] == 1:
+        lvs = [x[1] for x in T.subterms(key[2]) if x[0] == "bv"]
+        lv = ("bv", min(lvs)) if lvs else None
+        body = key[2]
+    elif key is not None and key[0] == "fn":
+        kf = ck.ctx.p.functions.get(key[1])
+        if kf is not None and len(kf.call_params()) == 1:
+            lv = ("bv", 0)
+            body = Normalizer(ck.ctx, kf, {kf.call_params()[0].name: lv}, inline=1)._body_to_term(list(kf.body))
+    if body is None or lv is None:
+        raise AnalysisError(f"{w}: pre-order key of the chain not recognised: {T.show(key)[:160] if key else None}")
+    from ..rules.common import expand_simple_apps
+    body = expand_simple_apps(ck, body)
+    strand = [x for x in T.subterms(body) if x[0] == "attr" and x[2] in ("reverse", "reverseStrand", "siteId")]
+    coords = {pos_of(lv, e, a) for e in ("start", "end") for a in ("reference", "query")}
+    items = T.to_poly(body) if body[0] in ("poly", "attr") else None
+    ok = False
+    if items is not None and not strand:
+        monos = {m[0]: c for m, c in items.items() if len(m) == 1}
+        ok = len(monos) == len(items) and set(monos) == coords and all(c > 0 for c in monos.values())
+    ck.judge(ok and desc == C(False), "C14.6", short(fn) + ":pre-order", w,
+             "pre-order key = positive combination of reference start/end and query start/end, ascending, the same on both strands"
+             + (" (the key reads the strand / label numbers: on '-' the mirrored query coordinates ascend like the forward ones)" if strand else ""),
+             found=T.show(body)[:240], required="start.reference + end.reference + start.query + end.query")
+
+
+def pos_of(seg, end, side):
+    return T.mk_attr(T.mk_attr(T.mk_attr(seg, end + "Position"), side), "position")
 
 
 def pure_scorer(ck, fn):
@@ -347,4 +460,5 @@ def dp(ck):
             ck.judge(bool(ok), "C14.4", short(fn) + ":complement", w,
                      "the DP input and the passed-through list are complementary selections of the same input (s.empty / not s.empty)",
                      found=T.show(inp)[:160])
+            _preorder_key(ck, fn, spec, w)
     ck.floor("C14.4 final return paths of chain", n_final, 1)
